@@ -265,8 +265,31 @@ def build_cases(ck, wd, cfg):
             cat = "quiet1" if (n, i) in (("garbage.txt", "xyz"), ("garbage.txt", "discus"), ("generator.stru", "discus"), ("empty.txt", "xyz"),
                                          ("binary.dat", "xyz"), ("latin1.txt", "xyz"), ("binary.dat", "discus")) else "any"
             add(["%s..xyz" % i, os.path.join(wd, n)], cat, "%s as %s" % (n, i))
+    # 3b. printf-like and other unusual characters in the file name or in the token a parser quotes in its complaint
+    xyz_ok = open(files[(0, "xyz")], "rb").read()
+    xyz_cut = b"\n".join(xyz_ok.split(b"\n")[:3])[:-4] + b"\n"          # atom record cut short: not XYZ
+    for nm in ("alloy_5%Fe", "a%sb", "%d", "100%", "x{0}y", "q%(k)s", "w\\n"):
+        pg = os.path.join(wd, nm + ".xyz")
+        pb = os.path.join(wd, nm + "_bad.xyz")
+        with open(pg, "wb") as fh:
+            fh.write(xyz_ok)
+        with open(pb, "wb") as fh:
+            fh.write(xyz_cut)
+        add(["xyz..pdffit", pg], "ok", "valid xyz file named %r" % nm)
+        add(["xyz..pdffit", pb], "quiet1", "truncated xyz file named %r" % nm)
+        add(["auto..xyz", pb], "any", "truncated xyz file named %r via auto" % nm)
+    pct = {"pct.pdb": (b"%FLAGS    1\nATOM      1  C   XXX     1       0.000   0.000   0.000  1.00  0.00           C\n", "pdb"),
+           "pct.stru": (b"title t\nformat pdffit\nscale 1\nshape 50%\natoms\nC 0 0 0 1\n", "pdffit"),
+           "pct.xyz": (b"2\nt\nC 0 0 %s\nC 1 1 1\n", "xyz"), "pct.cif": (b"data_x\n_cell_length_a 5%\n", "cif"),
+           "pct.discus": (b"title t\nspcgr P1\ncell 1 1 1 90 90 %d\natoms\nC 0 0 0 0.1\n", "discus")}
+    for n, (b, i) in pct.items():
+        with open(os.path.join(wd, n), "wb") as fh:
+            fh.write(b)
+        add(["%s..xyz" % i, os.path.join(wd, n)], "any", "%s with a %% token as %s" % (n, i))
+        add(["%s..xyz" % i, "-"], "any", "%s with a %% token as %s on stdin" % (n, i), stdin=b)
     # 4. files that cannot be read
     os.makedirs(os.path.join(wd, "adir"), exist_ok=True)
+    add(["xyz..cif", os.path.join(wd, "no%such%sfile.xyz")], "quiet1", "missing file with % in the name")
     add(["xyz..cif", os.path.join(wd, "does-not-exist.xyz")], "quiet1", "missing file")
     add(["auto..cif", os.path.join(wd, "does-not-exist.xyz")], "quiet1", "missing file, auto")
     add(["cif..xyz", os.path.join(wd, "does-not-exist.cif")], "quiet1", "missing file, cif")
@@ -299,7 +322,7 @@ def build_cases(ck, wd, cfg):
         add(argv, cat, "command line %r" % (argv[:1],))
     # random specifications / options
     pieces = infmts + outfmts + ["", ".", "..", "...", "bogus", "-", "--", "-h", "-V", "--help", "--vers", "-q", "--x=1", " ", "a..b"]
-    for _ in range(25 if quick else 500):
+    for _ in range((25 * getattr(ck, "widen", 1)) if quick else 500):
         n = rng.randrange(1, 4)
         spec = "".join(rng.choice(pieces + ["..", ".."]) for _ in range(n))
         argv = [spec] + ([vf] if rng.random() < 0.6 else [])
@@ -465,13 +488,33 @@ def inject_disagrees(m, r):
             (m["tb"] == "0" and int(m["stderr"]) != real["errlines"]) or (m["stdout"] == "empty") != (not r["stdout"]))
 
 
-def run(ck):
-    sys.path.insert(0, VERIF)
+def cli_facts(GEN):
+    """translate/cli.py on the tree under examination; a main() it cannot even tabulate counts as not recognised"""
     from translate import cli as tcli
 
+    try:
+        return tcli.main(GEN, common.REPO)
+    except Exception as e:  # noqa: BLE001
+        facts = {"unrecognised": "translate/cli.py could not tabulate main(): %s: %s" % (type(e).__name__, e)}
+        tcli.emit(facts, GEN)
+        return facts
+
+
+def run(ck):
+    sys.path.insert(0, VERIF)
+
     GEN = os.path.join(LEAN, "DS", "Gen")
-    facts = tcli.main(GEN, common.REPO)
+    facts = cli_facts(GEN)
     ok, info = ck.lean_obligations("DS.Props.C20")
+    # `Cli.main Gen.cliConfig` IS the current source of transtru.main (transliterated by translate/src_load.py)
+    from translate import registry
+
+    from .c12 import TIE_C20, tie_scope
+
+    registry.main(GEN, os.path.join(GEN, "registry_report.json"))   # `main_formats` compares the format lists with the registry of this tree
+    tie_ok, tie_info = tie_scope(*ck.source_tie("DS.Props.SrcLoad", groups=("load",)), TIE_C20)
+    ck.widen = 1 if tie_ok else 4      # a broken tie: four times as many random command lines, the whole exception universe
+    ck.t4_tie = (tie_ok, tie_info)
     wd = os.path.join(common.WORK, "c20_%d" % os.getpid())
     shutil.rmtree(wd, ignore_errors=True)
     os.makedirs(wd)
@@ -510,7 +553,7 @@ def _run(ck, facts, ok, info, wd):
     # fault injection over the exception universe
     inj = []
     kinds = sorted(universe - {"Exception"}) + ["Exception"]
-    if ck.tier == "quick":
+    if ck.tier == "quick" and getattr(ck, "widen", 1) == 1:
         kinds = [k for k in kinds if k in ("IndexError", "KeyError", "OSError", "FileNotFoundError", "PermissionError", "IsADirectoryError",
                                            "ValueError", "UnicodeDecodeError", "StructureFormatError", "NotImplementedError", "TypeError",
                                            "LatticeError", "StopIteration", "RecursionError", "Exception")]
@@ -568,6 +611,7 @@ def _run(ck, facts, ok, info, wd):
         if k == "IndexError" and w == "read":
             msg = r["stderr"].decode("utf-8", "replace").strip()
             ck.notes.append("IndexError raised inside a reader: status %d, message %r (theorem index_error_in_reader_2)" % (r["status"], msg))
+    ck.tie_verdict(ck.t4_tie[0], ck.t4_tie[1], "apps/transtru.py (main)")
     if facts.get("unrecognised"):
         ck.fail("translator:unrecognised", "transtru.main() no longer has the modelled shape: %s" % facts["unrecognised"],
                 {"kind": "translator", "detail": facts["unrecognised"], "theorem": "DS.Props.C20.recognised"}, no_failing_input=True)
@@ -588,7 +632,9 @@ def _run(ck, facts, ok, info, wd):
         cats[c["cat"]] = cats.get(c["cat"], 0) + 1
     ck.coverage["categories"] = cats
     ck.coverage["samples"] = [{"argv": cases[i]["argv"], "model": out[i], "real": classify_real(reals[i])} for i in (0, len(cases) // 2, len(cases) - 1)]
-    ck.coverage["trusted_base"] += ["translate/cli.py (ast reading of main(), handler resolution with issubclass)",
+    ck.coverage["trusted_base"] += ["translate/src_load.py (symbolic execution of transtru.main into a DS.Cli.Outcome term; DS.Props.SrcLoad.main_eq "
+                                    "identifies it with DS.Cli.main Gen.cliConfig)",
+                                    "translate/cli.py (ast reading of main(), handler resolution with issubclass)",
                                     "CPython getopt / process exit status for uncaught exceptions"]
     ck.assumptions += ["messages of handled exceptions are single lines (checked on every observed case, not proved)",
                        "`total` assumes readers/writers raise only handled classes (C13's conclusion + OSError); the check reports any observed traceback",
@@ -604,13 +650,15 @@ def replay(path):
     translator      : 1 iff translate/cli.py does not recognise main() of this tree
     lean-build      : 1 iff DS.Props.C20 does not build against the configuration generated from this tree"""
     sys.path.insert(0, VERIF)
-    from translate import cli as tcli
-
     rec = json.load(open(path))
     key = rec.get("key", "")
     GEN = os.path.join(LEAN, "DS", "Gen")
-    facts = tcli.main(GEN, common.REPO)
+    facts = cli_facts(GEN)
     unrec = bool(facts.get("unrecognised"))
+    if key.startswith("source-tie:"):
+        from .c12 import TIE_C20, replay_tie
+
+        return replay_tie("C20", TIE_C20)
     if key.startswith("translator:"):
         print("translator:", facts.get("unrecognised") or "main() recognised")
         return 1 if unrec else 0
